@@ -166,6 +166,18 @@ PROPS = {
         assumptions=["'succeeds' = the connection becomes authenticated; the ldap anonymous bind (empty name and password) "
                      "is answered with success and authenticates nobody; ftp's credential set is its fixed user table"],
     ),
+    "C05": dict(
+        modules=["HT.Props.C05"],
+        streams=["c05ev"],
+        rule="event constructors: every 1-byte payload and every 7th (quick) / every (thorough) 2-byte payload, payloads of "
+             "3..65536 bytes incl. a small one right after a large one, seeded payloads; source/destination address options "
+             "over tcp/udp/other x IPv4/IPv6 x ports; MergeFrom/CopyFrom over all pairs of subsets of 4 keys (incl. empty "
+             "values) and a typed merge; every case marshalled with MarshalJSON and ToMap and parsed back; all events "
+             "captured while running service scenarios of C10/C12/C13 marshalled; non-trivial = non-empty argument; "
+             "distinct = distinct case line",
+        trusted=COMMON_TB + ["encoding/json, encoding/hex (compared, not modelled)"],
+        assumptions=["JSON serialisability of stored value types is established by marshalling every captured event, not by a theorem"],
+    ),
 }
 
 HOOK_COMMITS = ["0596fc6", "c47bf54", "a8020ca"]
@@ -174,6 +186,16 @@ NOT_BUILT = "check not built yet in this round (design in DESIGN.md section 7); 
 NOT_APPLICABLE = {("C%02d" % i): NOT_BUILT for i in range(1, 21)}
 
 MANIFEST_TEXT = {
+    "C05": dict(
+        text="Lean theorems: hex decode . hex encode = id for every byte string; the payload option stores a hex field that "
+             "decodes to the data and a length field equal to its length; tcp/udp address options store the connection's ip "
+             "and port, other kinds nothing; MergeFrom keeps every existing key with its value (any type), CopyFrom overwrites; "
+             "stored keys = map keys, each once. Tied to event/*.go by differential runs incl. JSON round trips; events captured "
+             "from real service scenarios are marshalled with both channel code paths.",
+        design_ref="DESIGN.md section 7, C05",
+        note="Partial: 'every emitted event serialises' rests on the correspondence run (encoding/json is not modelled).",
+        technique="Lean 4 proof (round trip, map algebra) + differential correspondence incl. JSON round trip",
+    ),
     "C12": dict(
         text="Lean theorems: the ssh callback accepts iff the wildcard or exactly the presented pair is configured, with no "
              "state between attempts; an ldap bind is answered success iff the wildcard or name:password (name as evaluated) "
